@@ -360,7 +360,7 @@ pub fn run(ctx: &Ctx) -> Report {
     if ctx.want("shapes") {
         let name = sfx("shapes");
         let dom = v_domain(thorough);
-        let sub = Sub::new(&name, &format!("V: the context atoms (chosen so that first and last printed byte cover every byte class), every two-leaf shape (proper list, dotted list, vector, nested to depth 2) over all ordered pairs of them, every three-leaf shape over 12 atoms, every four-leaf shape over 5 atoms{}; all entry points; non-trivial = compound value", build), &format!("{} values", dom.len()));
+        let sub = Sub::new(&name, &format!("V: the context atoms (chosen so that first and last printed byte cover every byte class), every two-leaf shape (proper list, dotted list, vector, nested to depth 2) over all ordered pairs of them, every three-leaf shape over the 14 atoms of A12, every four-leaf shape over 5 atoms{}; all entry points; non-trivial = compound value", build), &format!("{} values", dom.len()));
         let accs = par_ranks(dom.len() as u64, |rank, acc| {
             let m = &dom[rank as usize];
             if !m.is_atom() {
